@@ -318,6 +318,11 @@ def r4(ctx):
             yield VIOL("C03-R4", "get_signing_key/setter/" + f, "setter `%s` does not receive the required value (calls %s, params %s)" % (f, [c for c in sl.callee_names() if "auth::" in c or "chrono" in c][:5], sorted(sl.locals & {region, service, self_l})), where=b.span_of_block(cb))
         else:
             yield PASS("C03-R4", "get_signing_key/setter/" + f, "setter `%s` fed as specified and dominates build()" % f, [site(b, cb, f)])
+            # ... and unaltered: the key is requested for the access key / token / region / service as they are
+            # (no trimming, re-casing, replacing; the access key is the text before the first '/')
+            alt = transforms(b, ct["args"][1], allow=(r"str>::split$|str>::split_once$|Iterator::map$" if f in ("access_key", "session_token") else None), stop=r"GetSigningKeyRequestBuilder::")
+            if alt:
+                yield VIOL("C03-R4", "get_signing_key/setter/%s/as-is" % f, "the %s handed to the key provider is altered on the way (through %s)" % (f.replace("_", " "), [c.split("::")[-1] for c in alt]), where=b.span_of_block(cb))
     # split separator '/'
     sp = b.calls(r"str>::split$|str>::split_once$")
     if sp and const_value(op_const(sp[0][1]["args"][1]) or {}) != ord("/"):
